@@ -108,6 +108,7 @@ type Exec struct {
 	pools    map[string][]Value
 	known    map[*Term]uint64
 	maxDepthSeen int
+	sched    *Sched
 	fixed    []TapeEntry // concrete mode: input values
 	fixedPos int
 	model    map[string]uint64 // an assignment of the input variables satisfying the path condition (nil = none known)
@@ -197,7 +198,16 @@ func (ex *Exec) feasibleM(c *Term) (bool, map[string]uint64) {
 	return true, m
 }
 
+// checkBudget ends the path when the run's exploration budget is used up (or exploration was
+// stopped because enough counterexamples were found).
+func (ex *Exec) checkBudget() {
+	if ex.sched != nil && ex.sched.isClosed() {
+		ex.abort("budget", "exploration stopped")
+	}
+}
+
 func (ex *Exec) checkSolverAlive() {
+	ex.checkBudget()
 	if ex.sv.deaths != ex.solverGen {
 		ex.abort("solver", "solver restarted: "+ex.sv.lastErr)
 	}
